@@ -1104,6 +1104,41 @@ PROG_STRINGS = ["", "x", "it's", "back\\slash", "'", "\\", "\\'", "'\\", "a'b\\c
                 "C:\\Windows\\x.exe", "^\\d+'$", "\n", "\"q\""]
 
 
+# bodies of quoted keys in string-encoded object paths ("type:a.'<body>'.b" handed to the comparison classes /
+# ObjectPath.make_object_path, or one step handed to ObjectPath), written as in a pattern: quote and backslash escaped
+QTEXT_BODIES = ["it\\'s", "back\\\\slash", "a b", "a-b", "SHA-256", "\\'", "\\\\", "x\\'y\\'z", "a\\\\\\'b", "\\'\\'",
+                "\u00e9-\u6f22", "AND", "true", "", "x_ref", "\\\\\\\\", "a\\\\", "\\'a", "a]"]
+# ... and with a character that separates steps / type / index outside quotes
+QTEXT_SEP = ["a.b", "x.y.z", "1.2.3.4", ".", "a:b", ":", "a[1]", "[", "it\\'s.x", "a\\\\.b"]
+SEP_FINDING = "C10-text-path-separator-in-quoted-key"
+
+
+def pattern_unescape(body):
+    out, i = [], 0
+    while i < len(body):
+        if body[i] == "\\" and i + 1 < len(body):
+            out.append(body[i + 1])
+            i += 2
+        else:
+            out.append(body[i])
+            i += 1
+    return "".join(out)
+
+
+def quoted_text_comp(body, idx=None):
+    n = "'%s'" % body + ("" if idx is None else "[%s]" % idx)
+    return {"k": "text", "n": n, "name": pattern_unescape(body), "idx": idx, "qbody": body}
+
+
+def text_has_sep(c, whole_text=True):
+    """a quoted text step with a separator inside its quotes: '[' always, '.' and ':' when the whole path is one text"""
+    return c.get("k") == "text" and "qbody" in c and any(ch in c["qbody"] for ch in (".:[" if whole_text else "["))
+
+
+def cmp_has_sep(s):
+    return s["k"] == "cmp" and any(text_has_sep(c, "lhs_text" in s) for c in s["lhs"]["comps"])
+
+
 class ProgGen:
     """objects assembled from the public classes; `wg` (well grouped) = a
     parenthetical node wherever precedence requires one"""
@@ -1159,6 +1194,9 @@ class ProgGen:
         """a path step written as text; `name`/`idx` say what it is meant to be"""
         rng = self.rng
         r = rng.random()
+        if rng.random() < 0.3:       # a quoted key written as it is written in a pattern, escapes included
+            sep = rng.random() < 0.12
+            return quoted_text_comp(rng.choice(QTEXT_SEP if sep else QTEXT_BODIES), rng.choice([None, None, None, 0, 12, "*"]))
         if r < 0.2:
             n = rng.choice(["src_ref", "dst_ref", "parent_ref", "x_ref"])
             return {"k": "text", "n": n, "name": n, "idx": None}
@@ -1378,6 +1416,17 @@ def prog_systematic():
                {"k": "repeat", "c": {"k": "int", "v": 10 ** 21}}):
         out.append(Q(A, qs))
         out.append(Q(par(cp("OR", A, B)), qs))
+    # quoted keys inside string-encoded paths, escapes included; with separator characters inside the quotes
+    tx = lambda n: {"k": "text", "n": n, "name": n, "idx": None}      # noqa: E731
+    for body in QTEXT_BODIES + QTEXT_SEP:
+        for idx in (None, 1, "*"):
+            comps = [tx("settings"), quoted_text_comp(body, idx), tx("size")]
+            e = {"k": "cmp", "cls": "Equality", "lhs": {"type": "x-foo", "comps": comps}, "rhs": {"k": "int", "v": 1}, "neg": False}
+            out.append({"k": "obs", "e": e})
+            out.append({"k": "obs", "e": dict(e, lhs_text="x-foo:" + ".".join(c["n"] for c in comps))})
+        first = [quoted_text_comp(body), quoted_text_comp(body)]
+        e = {"k": "cmp", "cls": "Like", "lhs": {"type": "a", "comps": first}, "rhs": {"k": "str", "v": pattern_unescape(body)}, "neg": True}
+        out.append({"k": "obs", "e": dict(e, lhs_text="a:" + ".".join(c["n"] for c in first))})
     for n in ("src_ref", "SHA-256", "hashes"):
         comps = [{"k": "text", "n": "a", "name": "a", "idx": None}, {"k": "text", "n": n, "name": n, "idx": None}]
         e = {"k": "cmp", "cls": "Equality", "lhs": {"type": "x", "comps": comps}, "rhs": {"k": "int", "v": 1}, "neg": False}
@@ -1443,6 +1492,8 @@ def prog_features(spec):
             fs.add(x)
         if prog_star(s):
             fs.add("C10-quoted-key-star-attributeerror")
+        if cmp_has_sep(s):
+            fs.add(SEP_FINDING)
         return s
     prog_walk(spec, f)
     return fs
@@ -1454,11 +1505,21 @@ def prog_neutralise(spec, ids):
             s["neg"] = False
         if "C10-quoted-key-star-attributeerror" in ids and prog_star(s):
             lhs = s["lhs"]
+            whole = "lhs_text" in s      # the path stays one text if it was one
+            zero = lambda c: ({"k": "text", "n": c["n"][:c["n"].rindex("[")] + "[0]", "name": c["name"], "idx": 0,      # noqa: E731
+                               **({"qbody": c["qbody"]} if "qbody" in c else {})} if c["k"] == "text"
+                              else {"k": "list", "n": comp_struct(c)[1], "i": 0})
             s["lhs"] = {"type": lhs["type"], "comps": lhs["comps"][:1] + [
-                {"k": "list", "n": comp_struct(c)[1], "i": 0}
-                if (comp_struct(c)[0] == "list" and "-" in comp_struct(c)[1] and comp_struct(c)[2] == "*") else c
+                zero(c) if (comp_struct(c)[0] == "list" and "-" in comp_struct(c)[1] and comp_struct(c)[2] == "*") else c
                 for c in lhs["comps"][1:]]}
-            s.pop("lhs_text", None)
+            if whole:
+                s["lhs_text"] = lhs["type"] + ":" + ".".join(c["n"] for c in s["lhs"]["comps"])
+        if SEP_FINDING in ids and cmp_has_sep(s):
+            tr = lambda b: b.replace(".", "-").replace(":", "-").replace("[", "-")      # noqa: E731
+            comps = [quoted_text_comp(tr(c["qbody"]), c["idx"]) if text_has_sep(c) else c for c in s["lhs"]["comps"]]
+            s["lhs"] = {"type": s["lhs"]["type"], "comps": comps}
+            if "lhs_text" in s:
+                s["lhs_text"] = s["lhs"]["type"] + ":" + ".".join(c["n"] for c in comps)
         return s
     return prog_walk(spec, f)
 
